@@ -62,12 +62,14 @@ Plan gen_c16(uint64_t seed, int tier)
         if (c < 12)
         {
           // logger level changes race with logging
-          ops.push_back(Op{OP_SET_LEVEL, lg, r.pick<int64_t>({0, 2, 3, 4, 4, 5, 6, 7, 8})});
+          // (10 = LogLevel::None: nothing passes, not even a backtrace statement)
+          ops.push_back(Op{OP_SET_LEVEL, lg, r.pick<int64_t>({0, 2, 3, 4, 4, 5, 6, 7, 8, 10, 10})});
         }
         else if (c < 50)
         {
           // real macros: static levels, dynamic level, named arguments
-          ops.push_back(Op{OP_LOG_MACRO, lg, static_cast<int64_t>(r.pick<int>({0, 0, 1, 1, 2})), r.range(0, 8),
+          // (3 = LOG_BACKTRACE: level Backtrace, above Critical and below None; without init_backtrace it is never written)
+          ops.push_back(Op{OP_LOG_MACRO, lg, static_cast<int64_t>(r.pick<int>({0, 0, 1, 1, 2, 3})), r.range(0, 8),
                            static_cast<int64_t>(r.next() >> 8), static_cast<int64_t>(r.below(30)), 0});
         }
         else
@@ -247,9 +249,9 @@ Verdict judge_c16(Plan const& p, History const& h, RunInfoLite const& ri)
   DeliveryRules rules;
   rules.expect = [&](Issued const& is, int sink) -> int
   {
-    if (is.result != 1)
+    if (is.result != 1 || is.level == 9)
     {
-      return 0;
+      return 0; // (a LOG_BACKTRACE statement is stored, and no plan of this profile initialises or flushes a backtrace)
     }
     if (!((m.mask_of_logger_at(is.logger, is.invoke_seq) >> sink) & 1))
     {
